@@ -515,6 +515,22 @@ def pool(seed, tier, strategies=None, n_fast=None, n_slow=None, inject=False, fe
                              "fixed_load": {"b": {"start_time": scen.iso(start15), "step_duration_s": 3600, "grid_connector_id": "GC1",
                                                   "values": [5, 5, 20, 25, 25, 10, 5, 5]}}}}
             recs.append(run_record(js, "peak_load_window", {"time_windows": tw_file(tmp, rng15, start15), "ALLOW_NEGATIVE_SOC": True}, time_limit=40))
+        if "peak_load_window" in strategies:
+            # D16: peak_load_window outside the windows, tapering curve, station rated below the vehicle, so little standing time that the
+            # balanced power asked for is above the station rating (round-2 seed C05-s6: the clamped value is what is booked)
+            rng16 = random.Random("pool-d16/%d" % seed)
+            start16 = datetime.datetime.fromisoformat("2023-01-03T12:00:00" + scen.TZ)
+            js = {"scenario": {"start_time": scen.iso(start16), "interval": 15, "n_intervals": 6},
+                  "components": {
+                      "vehicle_types": {"t": {"name": "t", "capacity": 100, "charging_curve": [[0, 22], [0.8, 22], [1, 5]]}},
+                      "vehicles": {"v1": {"vehicle_type": "t", "soc": rng16.choice([0.1, 0.2]), "desired_soc": 1.0, "connected_charging_station": "cs1",
+                                          "estimated_time_of_departure": scen.iso(start16 + datetime.timedelta(minutes=15 * rng16.choice([2, 3])))}},
+                      "grid_connectors": {"GC1": {"max_power": 100, "voltage_level": "MV", "grid_operator": "default_grid_operator",
+                                                  "cost": {"type": "fixed", "value": 0.1}}},
+                      "charging_stations": {"cs1": {"max_power": 11, "parent": "GC1"}},
+                      "batteries": {}, "photovoltaics": {}},
+                  "events": {"grid_operator_signals": [], "local_generation": {}, "vehicle_events": [], "fixed_load": {}}}
+            recs.append(run_record(js, "peak_load_window", {"time_windows": tw_file(tmp, rng16, start16), "ALLOW_NEGATIVE_SOC": True}, time_limit=40))
         # intervals that do not divide an hour (round-3 seed C18-s8: per-hour scaling of the aggregates)
         rng_odd = random.Random("pool-odd/%d" % seed)
         for k_odd in range(3 if tier == "quick" else 9):
@@ -703,7 +719,7 @@ def check_c04(rec):
                     comp = "/stationary-battery" if abs(nobat) <= gs["cur_max"] + eps else "/stations"
                 else:
                     comp = ""
-                    if cls == "C04/forecast-mismatch/" and rec["strategy"] in ("flex_window", "schedule"):
+                    if cls == "C04/forecast-mismatch/" and rec["strategy"] == "flex_window":
                         # the sub-strategies and the station / battery allocations are separate paths: a finding on one must not hide
                         # a new one on another
                         comp = "/" + str(rec["options"].get("LOAD_STRAT", "balanced" if rec["strategy"] == "flex_window" else "collective"))
@@ -734,7 +750,11 @@ def check_c05(rec):
             if cs["max"] != cmax:
                 v.append(("C05/concurrency-scaling", "station %s max %s != CONCURRENCY*rating %s: %s" % (cs_id, cs["max"], cmax, desc)))
             if abs(load) > cmax + eps:
-                v.append(("C05/station-limit/" + rec["strategy"], "step %d station %s power %s > max %s: %s" % (i, cs_id, float(load), float(cmax), desc)))
+                # with / without local generation at the connector in this step: the listed findings of the look-ahead strategies are
+                # about handing out a generation surplus; a station over its maximum without any generation is something else
+                gen_here = any(val < 0 for k, val in snap["gc"][cs["parent"]]["loads"].items() if k in rec["gen_keys"])
+                sub = ("/surplus" if gen_here else "/no-surplus") if rec["strategy"] in ("flex_window", "peak_load_window") else ""
+                v.append(("C05/station-limit/" + rec["strategy"] + sub, "step %d station %s power %s > max %s: %s" % (i, cs_id, float(load), float(cmax), desc)))
             if cs_id not in occupied and load != 0:
                 v.append(("C05/power-without-vehicle", "step %d station %s carries %s without a vehicle: %s" % (i, cs_id, float(load), desc)))
             if cs_id in occupied:
